@@ -18,7 +18,14 @@ type Src struct {
 
 // Sources classifies the possible origins of an interface/pointer value with respect to nil-ness.
 func (w *World) Sources(v ssa.Value, at *ssa.BasicBlock) []Src {
-	seen := map[ssa.Value]bool{}
+	// a value is visited once per program point it arrives at: the same value entering a Phi
+	// through two different edges is two sources (each edge has its own conditions)
+	type visit struct {
+		v  ssa.Value
+		at *ssa.BasicBlock
+		to *ssa.BasicBlock
+	}
+	seen := map[visit]bool{}
 	var out []Src
 	var curTo *ssa.BasicBlock
 	var walk func(v ssa.Value, at *ssa.BasicBlock)
@@ -34,10 +41,10 @@ func (w *World) Sources(v ssa.Value, at *ssa.BasicBlock) []Src {
 			return
 		}
 		if _, isC := v.(*ssa.Const); !isC {
-			if seen[v] {
+			if seen[visit{v, at, curTo}] {
 				return
 			}
-			seen[v] = true
+			seen[visit{v, at, curTo}] = true
 		}
 		switch x := v.(type) {
 		case *ssa.Const:
